@@ -30,17 +30,10 @@ type c03 struct {
 	st    *Stats
 }
 
-func c03cmpNat(a, b int) int {
-	switch {
-	case a < b:
-		return -1
-	case a > b:
-		return 1
-	}
-	return 0
-}
+// comparators deliberately return magnitudes other than 1 (any sign-correct int is a legal result)
+func c03cmpNat(a, b int) int { return 2 * (a - b) }
 
-func c03cmpDiv(a, b int) int { return c03cmpNat(a/10, b/10) }
+func c03cmpDiv(a, b int) int { return a/10 - b/10 }
 
 func c03Ints(ss []string) []int {
 	out := make([]int, 0, len(ss))
